@@ -13,7 +13,7 @@ a named lemma (then check reports per DESIGN §3.1).
 """
 import os, re, sys
 
-REPO = "/repo"
+REPO = os.environ.get("VERIF_REPO", "/repo")
 OUT = os.path.join(os.path.dirname(os.path.abspath(__file__)), "..", "lean", "SuxModel", "Gen", "Consts.lean")
 
 
